@@ -44,7 +44,7 @@ def section(ctx):
     if sn is not None:
         sts = _stmts_in_order(sn)
         texts = [un(s) for s in sts]
-        ups = [i for i, t in enumerate(texts) if t == 'await self._upload_data(location, serialized_snapshot)']
+        ups = [i for i, t in enumerate(texts) if t.startswith('await self._upload_data(')]
         all_ups = [n for n in ast.walk(sn) if isinstance(n, ast.Call) and un(n.func) in ('self._upload_data', 'self.backend.upload')]
         gathers = [i for i, s in enumerate(sts) if isinstance(s, ast.Try) and any(
             un(x) == 'await asyncio.gather(*(_worker() for _ in range(self._concurrent)))' for x in s.body)]
